@@ -79,13 +79,32 @@ func (x *Exec) modLocs(st *State, old *State, ct *Contract, env map[string]Val) 
 			}
 			switch e.Fn {
 			case "fields":
-				pt, su, ok := derefStruct(args[0].GoT)
+				target := args[0]
+				if target.K == VIface {
+					if target.Dyn == nil || target.Payload == nil {
+						// statically unknown message type: nothing trackable to havoc but the wire ghost
+						x.declIfaceFns()
+						r := app("payl", SInt, target.T)
+						x.registerPrefix(wirePrefix, types.Typ[types.String])
+						out = append(out, modLoc{Prefix: wirePrefix, Ref: &r, T: types.Typ[types.String]})
+						continue
+					}
+					pv := *target.Payload
+					pv.GoT = target.Dyn
+					target = pv
+				}
+				pt, su, ok := derefStruct(target.GoT)
 				if !ok {
 					x.errorf("%s: modifies %s: not a struct pointer", ct.Key, src)
 					continue
 				}
+				{
+					r := target.T
+					x.registerPrefix(wirePrefix, types.Typ[types.String])
+					out = append(out, modLoc{Prefix: wirePrefix, Ref: &r, T: types.Typ[types.String]})
+				}
 				for i := 0; i < su.NumFields(); i++ {
-					r := args[0].T
+					r := target.T
 					p := fieldPrefix(pt, su.Field(i).Name())
 					x.registerPrefix(p, su.Field(i).Type())
 					out = append(out, modLoc{Prefix: p, Ref: &r, T: su.Field(i).Type()})
